@@ -70,6 +70,7 @@ type nw struct {
 	gen        map[int]int
 	events     []string
 	prevBind   map[string]string // podID/family -> "eni|ip" (bindings before the current transition)
+	prevKnown  map[string][2]int // interface -> addresses {v4, v6} the Node CR recorded before the current transition
 	logMark    int
 	noDaemon   bool
 	xformed    bool
@@ -77,6 +78,7 @@ type nw struct {
 
 func newNW(cfg nwCfg) *nw {
 	w := &nw{cfg: cfg, cloud: simcloud.NewCluster(), gen: map[int]int{}, prevBind: map[string]string{}}
+	w.cloud.LimitV4, w.cloud.LimitV6 = cfg.PerAdapter, cfg.PerAdapter // the cloud enforces the instance type's per-interface quota itself
 	flavor := []networkv1beta1.Flavor{}
 	sec := cfg.Adapters - 1
 	if cfg.Trunk {
@@ -193,6 +195,12 @@ func (w *nw) Apply(x *vrt.Exec, evn string) {
 	w.events = append(w.events, evn)
 	before := w.node()
 	w.prevBind = nwBindings(before)
+	w.prevKnown = map[string][2]int{}
+	if before != nil {
+		for id, e := range before.Status.NetworkInterfaces {
+			w.prevKnown[id] = [2]int{len(e.IPv4), len(e.IPv6)}
+		}
+	}
 	w.logMark = len(w.cloud.Log)
 	f := strings.Split(evn, ":")
 	ctx := context.Background()
@@ -595,12 +603,30 @@ func (w *nw) checkC08Calls(x *vrt.Exec) {
 	n := w.node()
 	hist := strings.Join(w.events, " ; ")
 	secondarySlots := w.cfg.Adapters - 1
+	added := map[string][2]int{}
 	for _, c := range w.cloud.Log[w.logMark:] {
 		switch c.Op {
 		case "Assign4", "Assign6":
+			// (a) what the controller ASKS for, judged by what it knows: addresses its record held for the interface before
+			// this transition + what this transition already added + this request
+			fam := 0
+			if c.Op == "Assign6" {
+				fam = 1
+			}
+			k := w.prevKnown[c.ENI]
+			ask := k[fam] + added[c.ENI][fam] + c.N4 + c.N6
+			if c.Fault != "idempotent-replay" && ask > w.cfg.PerAdapter {
+				x.Failf("C08/assign-request-over-per-adapter-limit", "%s: the record held %d addresses for %s, this transition had added %d, the request makes %d, limit %d; %s", c.String(), k[fam], c.ENI, added[c.ENI][fam], ask, w.cfg.PerAdapter, hist)
+			}
 			if c.Err && c.Fault != "after" {
 				continue
 			}
+			if c.Fault != "idempotent-replay" {
+				a := added[c.ENI]
+				a[fam] += c.N4 + c.N6
+				added[c.ENI] = a
+			}
+			// (b) what the cloud ended up with (the simulated cloud refuses beyond its own limit, so this guards the simulator)
 			ce := w.cloud.ENIs[c.ENI]
 			if ce == nil {
 				continue
@@ -614,6 +640,16 @@ func (w *nw) checkC08Calls(x *vrt.Exec) {
 			}
 			if c.N4 > ecsBatchSize || c.N6 > ecsBatchSize {
 				x.Failf("C08/assign-over-batch", "%s exceeds the batch size %d", c.String(), ecsBatchSize)
+			}
+		case "UnAssign4", "UnAssign6":
+			if !c.Err || c.Fault == "after" {
+				fam := 0
+				if c.Op == "UnAssign6" {
+					fam = 1
+				}
+				a := added[c.ENI]
+				a[fam] -= len(c.IPs)
+				added[c.ENI] = a
 			}
 		case "Create":
 			if c.N4 > w.cfg.PerAdapter || c.N6 > w.cfg.PerAdapter {
